@@ -562,3 +562,76 @@ impl Engine for C20Engine {
         c.steps.len() > 1
     }
 }
+
+// ------------------------------------------------------------ conversion storm
+
+/// Several *different* osu! maps converted / calculated for the same target mode at the
+/// same time on different threads: the shape in which a process-wide cache, memo or
+/// scratch buffer inside a converter would make one job see another job's data.
+fn gen_storm(rng: &mut Rng, tier: Tier) -> ConcCase {
+    let max_n = if cfg!(miri) { 5 } else if tier == Tier::Quick { 16 } else { 40 };
+    let n_maps = 2 + rng.usize(2);
+    let mut maps = Vec::new();
+    for _ in 0..n_maps {
+        let mut sh = gen_shape(rng, 0, max_n);
+        sh.n = sh.n.clamp(3, max_n);
+        sh.mix = 1 + rng.below(2) as u8; // sliders: converters have work to do
+        maps.push(gen_map(rng, &sh));
+    }
+    let target = 1 + rng.usize(3);
+    let diff = if rng.chance(0.5) { DiffSpec::default() } else { gen_diff(rng, target) };
+    let jobs: Vec<Job> = (0..n_maps)
+        .map(|m| Job {
+            kind: (*rng.pick(&["convert", "convert", "calc", "strains"])).to_owned(),
+            map: m,
+            target,
+            diff: diff.clone(),
+            score: ScoreSpec::default(),
+            api_enum: false,
+        })
+        .collect();
+    let threads = n_maps;
+    let rounds = if cfg!(miri) { 2 } else { 3 + rng.usize(3) };
+    let mut steps = Vec::new();
+    for _ in 0..rounds {
+        let mut ts: Vec<usize> = (0..threads).collect();
+        rng.shuffle(&mut ts);
+        steps.push(Step::Parallel((0..n_maps).map(|j| (j, ts[j])).collect()));
+    }
+    ConcCase {
+        maps,
+        jobs,
+        threads,
+        steps,
+    }
+}
+
+pub struct C20StormEngine;
+
+impl Engine for C20StormEngine {
+    type Case = ConcCase;
+    fn name() -> &'static str {
+        "c20s"
+    }
+    fn gen(rng: &mut Rng, tier: Tier) -> ConcCase {
+        gen_storm(rng, tier)
+    }
+    fn exec(case: &ConcCase, stats: &mut Stats) -> Option<Violation> {
+        exec(case, stats)
+    }
+    fn simpler(case: &ConcCase) -> Vec<ConcCase> {
+        simpler(case)
+    }
+    fn to_json(c: &ConcCase) -> Value {
+        C20Engine::to_json(c)
+    }
+    fn from_json(v: &Value) -> ConcCase {
+        C20Engine::from_json(v)
+    }
+    fn signature(c: &ConcCase) -> u64 {
+        C20Engine::signature(c) ^ fnv(format!("{:?}", c.jobs.iter().map(|j| (j.kind.as_str(), j.target)).collect::<Vec<_>>()).as_bytes())
+    }
+    fn nontrivial(c: &ConcCase) -> bool {
+        c.steps.len() > 1
+    }
+}
